@@ -200,6 +200,12 @@ def gen_program(seed, size=12, features=None):
             kinds += ["meth", "meth"]
         if g.feat.get("brk", True) and depth > 0:
             kinds.append("brk")
+        if g.feat.get("forin", True) and depth > 0 and sc_.of(lambda ty: ty[0] == "darr"):
+            kinds.append("forin")
+        if g.feat.get("enum", True) and depth > 0:
+            kinds.append("enum")
+        if g.feat.get("rec", True) and ints:
+            kinds.append("rec")
         if not kinds:
             return False
         kind = r.choice(kinds)
@@ -336,6 +342,75 @@ def gen_program(seed, size=12, features=None):
                 out_a.append({"k": "print", "e": V(m)})
             for fi in range(2):
                 out_a.append({"k": "print", "e": {"k": "field", "e": V(n), "f": "AB"[fi]}})
+            return True
+        if kind == "forin":
+            n = r.choice(sc_.of(lambda ty: ty[0] == "darr"))
+            _, t, ln = sc_.vars[n]
+            x, i = g.fresh("x"), (g.fresh("k") if r.random() < 0.5 else "")
+            inner = Scope(g)
+            inner.vars = dict(sc_.vars)
+            inner.vars[x] = ("int", t)
+            inner.frozen = set(sc_.frozen) | {x, n}
+            if i:
+                inner.vars[i] = ("int", BYNAME["i32"])
+                inner.frozen.add(i)
+            del inner.vars[n]               # the array is not touched while it is iterated
+            ba = [{"k": "print", "e": V(x)}] + ([{"k": "print", "e": V(i)}] if i and r.random() < 0.5 else [])
+            dummy = []
+            for _ in range(r.randint(0, 2)):
+                stmt(inner, ba, dummy, ind + 1, depth - 1)
+            out_a.append({"k": "forin", "n": x, "i": i, "e": V(n), "b": ba})
+            return True
+        if kind == "enum":
+            en = "E%d" % len(g.types)
+            names = ["A", "B", "C"][:r.randint(2, 3)]
+            g.types.append({"name": en, "enum": names})
+
+            def lit(k):
+                d = lit_ast(BYNAME["i32"], k)
+                d["enum"] = "%s::%s" % (en, names[k])
+                return d
+            ev = g.fresh("e")
+            pick = r.randrange(len(names))
+            out_a.append({"k": "let", "n": ev, "dty": en, "e": lit(pick)})
+            arms = []
+            for k in r.sample(range(len(names)), r.randint(1, len(names))):
+                inner = Scope(g)
+                inner.vars = dict(sc_.vars)
+                inner.frozen = set(sc_.frozen)
+                ba, dummy = [{"k": "print", "e": lit_ast(BYNAME["i32"], 100 + k)}], []
+                stmt(inner, ba, dummy, ind + 2, depth - 1)
+                arms.append({"dflt": False, "p": lit(k), "b": ba})
+            inner = Scope(g)
+            inner.vars = dict(sc_.vars)
+            inner.frozen = set(sc_.frozen)
+            ba, dummy = [{"k": "print", "e": lit_ast(BYNAME["i32"], 999)}], []
+            stmt(inner, ba, dummy, ind + 2, depth - 1)
+            arms.append({"dflt": True, "p": lit(0), "b": ba})
+            out_a.append({"k": "match", "e": V(ev), "arms": arms})
+            if r.random() < 0.5 and len(names) > 1:          # reassign and test with ==
+                other = (pick + 1) % len(names)
+                out_a.append({"k": "assign", "lv": V(ev), "e": lit(other)})
+                b = g.fresh("b")
+                out_a.append({"k": "let", "n": b, "dty": "bool", "e": {"k": "cmp", "op": r.choice(["==", "!="]), "l": V(ev), "r": lit(pick)}})
+                sc_.vars[b] = ("bool",)
+                out_a.append({"k": "print", "e": V(b)})
+            return True
+        if kind == "rec":
+            n = r.choice(ints)
+            t = sc_.vars[n][1]
+            f = "sumdown_" + t[0]
+            if f not in g.funcs:
+                # sumdown(x, d) = x + sumdown(x - 1, d - 1) while d > 0 : depth-bounded recursion, wraps like any addition
+                g.funcs[f] = {"params": ["x", "d"], "ptys": [t[0], "i32"], "rty": t[0], "body": [
+                    {"k": "if", "c": {"k": "cmp", "op": "<=", "l": V("d"), "r": lit_ast(BYNAME["i32"], 0)}, "t": [{"k": "ret", "e": V("x")}], "e": []},
+                    {"k": "ret", "e": {"k": "bin", "op": "+", "l": V("x"), "ty": tyj(t),
+                                       "r": {"k": "call", "f": f, "args": [{"k": "bin", "op": "-", "l": V("x"), "r": lit_ast(t, 1), "ty": tyj(t)},
+                                                                          {"k": "bin", "op": "-", "l": V("d"), "r": lit_ast(BYNAME["i32"], 1), "ty": tyj(BYNAME["i32"])}]}}}]}
+            m = g.fresh()
+            out_a.append({"k": "let", "n": m, "dty": t[0], "e": {"k": "call", "f": f, "args": [V(n), lit_ast(BYNAME["i32"], r.randint(0, 6))]}})
+            sc_.vars[m] = ("int", t)
+            out_a.append({"k": "print", "e": V(m)})
             return True
         if kind == "brk":
             # let i = 0; while i < N { i = i + 1; if c { continue / break; } body }
@@ -762,6 +837,10 @@ def rblock(b, ind, out):
             out.append(pad + "}")
         elif k == "for":
             out.append(pad + "for %s in %s..%s {" % (s["n"], rexpr(s["lo"]), rexpr(s["hi"])))
+            rblock(s["b"], ind + 1, out)
+            out.append(pad + "}")
+        elif k == "forin":
+            out.append(pad + "for %s%s in %s {" % (s["i"] + ", " if s["i"] else "", s["n"], rexpr(s["e"])))
             rblock(s["b"], ind + 1, out)
             out.append(pad + "}")
         elif k == "match":
